@@ -236,7 +236,8 @@ theorem decodeRune_encChar (c : Char) (r : List UInt8) :
   · rw [if_pos h1]
     simp only [List.cons_append, List.nil_append, decodeRune, UInt8.toNat_ofNat', List.length_cons, List.length_nil]
     rw [if_pos (by omega)]
-    congr 1
+    refine Prod.ext ?_ rfl
+    simp only
     omega
   · rw [if_neg h1]
     by_cases h2 : c.toNat ≤ 2047
@@ -245,7 +246,8 @@ theorem decodeRune_encChar (c : Char) (r : List UInt8) :
         List.length_nil]
       rw [if_neg (by omega), if_neg (by omega), if_pos (by omega)]
       rw [if_pos (by simp only [Bool.and_eq_true, decide_eq_true_eq]; omega)]
-      congr 1
+      refine Prod.ext ?_ rfl
+      simp only
       omega
     · rw [if_neg h2]
       by_cases h3 : c.toNat ≤ 65535
@@ -269,7 +271,8 @@ theorem decodeRune_encChar (c : Char) (r : List UInt8) :
           · omega
           · omega
         rw [if_pos hcond]
-        congr 1
+        refine Prod.ext ?_ rfl
+        simp only
         omega
       · rw [if_neg h3]
         simp only [List.cons_append, List.nil_append, decodeRune, dec4, isCont, lo2, hi2, UInt8.toNat_ofNat',
@@ -295,7 +298,84 @@ theorem decodeRune_encChar (c : Char) (r : List UInt8) :
           · omega
           · omega
         rw [if_pos hcond]
-        congr 1
+        refine Prod.ext ?_ rfl
+        simp only
         omega
+
+/-! ## bytes of an encoding -/
+
+/-- every byte of a character outside ASCII is at least 0x80 -/
+theorem encChar_bytes_ge (c : Char) (h : 127 < c.toNat) : ∀ x ∈ encChar c, 128 ≤ x.toNat := by
+  rw [encChar_eq, if_neg (by omega)]
+  intro x hx
+  split at hx
+  · simp only [List.mem_cons, List.not_mem_nil, or_false] at hx
+    rcases hx with hx | hx <;> (rw [hx]; simp only [UInt8.toNat_ofNat']; omega)
+  · split at hx
+    · simp only [List.mem_cons, List.not_mem_nil, or_false] at hx
+      rcases hx with hx | hx | hx <;> (rw [hx]; simp only [UInt8.toNat_ofNat']; omega)
+    · simp only [List.mem_cons, List.not_mem_nil, or_false] at hx
+      rcases hx with hx | hx | hx | hx <;> (rw [hx]; simp only [UInt8.toNat_ofNat']; omega)
+
+/-- an ASCII byte occurs in the encoding of a character only as that character -/
+theorem mem_encChar_ascii (d : Char) (b : UInt8) (hb : b.toNat < 128) (h : b ∈ encChar d) :
+    encChar d = [b] ∧ d.toNat = b.toNat := by
+  by_cases hd : d.toNat ≤ 127
+  · rw [encChar_ascii d hd] at h ⊢
+    simp only [List.mem_cons, List.not_mem_nil, or_false] at h
+    rw [h]
+    simp only [UInt8.toNat_ofNat', true_and]
+    omega
+  · have := encChar_bytes_ge d (by omega) b h
+    omega
+
+theorem not_mem_encChar (d c : Char) (hc : c.toNat ≤ 127) (hne : d ≠ c) : UInt8.ofNat c.toNat ∉ encChar d := by
+  intro h
+  have := (mem_encChar_ascii d (UInt8.ofNat c.toNat) (by simp only [UInt8.toNat_ofNat']; omega) h).2
+  simp only [UInt8.toNat_ofNat'] at this
+  exact hne (char_eq_of_toNat_eq d c (by omega))
+
+theorem not_mem_encodeChars (cs : List Char) (c : Char) (hc : c.toNat ≤ 127) (h : c ∉ cs) :
+    UInt8.ofNat c.toNat ∉ encodeChars cs := by
+  induction cs with
+  | nil => simp [encodeChars]
+  | cons d r ih =>
+    rw [encodeChars_cons, List.mem_append]
+    intro hm
+    rcases hm with hm | hm
+    · exact not_mem_encChar d c hc (fun he => h (by rw [he]; simp)) hm
+    · exact ih (fun hr => h (by simp [hr])) hm
+
+/-- runes of an encoded text -/
+theorem runesAux_enc : ∀ (cs : List Char) (f : Nat), (encodeChars cs).length ≤ f →
+    runesAux f (encodeChars cs) = cs.map Char.toNat := by
+  intro cs
+  induction cs with
+  | nil => intro f _; cases f <;> simp [runesAux, encodeChars]
+  | cons c r ih =>
+    intro f hf
+    have hlen := encChar_length_pos c
+    rw [encodeChars_cons] at hf ⊢
+    rw [List.length_append] at hf
+    obtain ⟨f, rfl⟩ : ∃ f', f = f' + 1 := ⟨f - 1, by omega⟩
+    cases he : encChar c with
+    | nil => exact absurd he (encChar_ne_nil c)
+    | cons b bs =>
+      simp only [List.cons_append, runesAux]
+      have hd := decodeRune_encChar c (encodeChars r)
+      rw [he] at hd
+      simp only [List.cons_append] at hd
+      rw [hd]
+      simp only [List.map_cons, List.cons.injEq, true_and]
+      have : List.drop (b :: bs).length (b :: (bs ++ encodeChars r)) = encodeChars r := by
+        rw [← List.cons_append, List.drop_left']; rfl
+      rw [this]
+      apply ih
+      rw [he] at hf
+      simp only [List.length_cons] at hf
+      omega
+
+theorem runes_enc (cs : List Char) : runes (encodeChars cs) = cs.map Char.toNat :=
+  runesAux_enc cs _ (Nat.le_refl _)
 
 end Goyang.Lemmas.Utf8
